@@ -32,7 +32,7 @@ import (
 func TestMain(m *testing.M) {
 	logrus.SetOutput(io.Discard)
 	logrus.SetLevel(logrus.PanicLevel)
-	ev.C().Rule("rapid, end to end on loopback: lambda.NewExtension (per-invocation flushing) around a forwarder-mode statsd.Server with an HTTP ingestion server, a fake Lambda runtime API (register, telemetry subscribe held until data was injected, /event/next long-poll released by the harness, /init/error, /exit/error) and a fake upstream /v2/raw with drawn latency (0..40 ms) and outcome (2xx, 5xx, connection close); histories of 1..5 invocations, each with 0..4 uniquely valued datapoints accepted over HTTP and 1..3 telemetry batches with other record types around at most one platform.runtimeDone; plus a start-up failure scenario. Oracle: order invariant over one global log. Non-trivial = an invocation with >= 1 datapoint and upstream latency > 0")
+	ev.C().Rule("rapid, end to end on loopback: lambda.NewExtension (per-invocation flushing) around a forwarder-mode statsd.Server with an HTTP ingestion server, a fake Lambda runtime API (register, telemetry subscribe held until data was injected, /event/next long-poll released by the harness, /init/error, /exit/error) and a fake upstream /v2/raw with drawn latency (0..40 ms, occasionally one call of 1.2 s - 5.5 s) and outcome (2xx, 5xx, connection close); histories of 1..5 invocations, each with 0..4 uniquely valued datapoints accepted over HTTP and 1..3 telemetry batches with other record types around at most one platform.runtimeDone; plus a start-up failure scenario. Oracle: order invariant over one global log. Non-trivial = an invocation with >= 1 datapoint and upstream latency > 0")
 	vt.Main(m)
 }
 
@@ -299,6 +299,18 @@ func TestExtensionOrdering(t *testing.T) {
 	rapid.Check(t, func(t *rapid.T) {
 		latencies := rapid.SliceOfN(rapid.SampledFrom([]int{0, 0, 5, 20, 40}), 8, 8).Draw(t, "upstream-latency-ms")
 		outcomes := rapid.SliceOfN(rapid.SampledFrom([]string{"2xx", "2xx", "2xx", "5xx", "close"}), 8, 8).Draw(t, "upstream-outcomes")
+		// occasionally one upstream call takes longer than any round-number patience a heartbeat could have (1 s; 2.5 s
+		// and 5.5 s in the thorough tier): the next-event request must still wait for it
+		slowLabel := ""
+		if rapid.IntRange(0, 5).Draw(t, "slow-upstream") == 0 {
+			pool := []int{1200}
+			if vt.Tier() == "thorough" {
+				pool = []int{1200, 2500, 5500}
+			}
+			ms := rapid.SampledFrom(pool).Draw(t, "slow-ms")
+			latencies[rapid.IntRange(0, 3).Draw(t, "slow-call")] = ms
+			slowLabel = fmt.Sprintf("slow-upstream=%dms", ms)
+		}
 		var umu sync.Mutex
 		ui, oi := 0, 0
 		w := &world{nextCh: make(chan string), nextSeen: make(chan int, 16), subHold: make(chan struct{})}
@@ -415,7 +427,11 @@ func TestExtensionOrdering(t *testing.T) {
 		if ev.C().WantSample() {
 			ev.C().Sample(map[string]interface{}{"history": history, "latencies_ms": latencies, "outcomes": outcomes, "log": describe(w.snapshot())})
 		}
-		ev.C().Case(fmt.Sprintf("%v|%v|%v", history, latencies, outcomes), nontrivial, fmt.Sprintf("invocations=%d", invocations))
+		labels := []string{fmt.Sprintf("invocations=%d", invocations)}
+		if slowLabel != "" {
+			labels = append(labels, slowLabel)
+		}
+		ev.C().Case(fmt.Sprintf("%v|%v|%v", history, latencies, outcomes), nontrivial, labels...)
 	})
 }
 
